@@ -142,7 +142,14 @@ pub fn balanced_pair(
         let mut count = 1;
 
         while count != 0 {
-            let (stream, cursor) = if let Some(closing) = close(c) {
+            let (stream, cursor) = if let Some(arrow) = seq([
+                &mut punct_with_spacing('-', Spacing::Joint),
+                &mut punct('>'),
+            ])(c)
+            {
+                // The `>` of a `->` (as in `fn() -> T`) closes nothing.
+                arrow
+            } else if let Some(closing) = close(c) {
                 count -= 1;
                 closing
             } else if let Some(opening) = open(c) {
